@@ -10,7 +10,10 @@ from ..engine_run import Observer, run_engine_protocol, run_history_observed, mo
 RULE = ("engine histories with redundant same-date updates and reads of every getter at random positions; after sampled steps: "
         "update;update on a deep copy leaves the full snapshot bit-identical; a getter read on one copy equals the read after an explicit "
         "update on another copy; rows before the current date never change between consecutive snapshots; no returned series ends after now; "
-        "every step compared with the Lean model on the whole snapshot. distinct = (tree shape, op, outcome, integer, commission)")
+        "every step compared with the Lean model on the whole snapshot; scripted family of trades with a cash leg of exactly zero (instruments "
+        "quoted at 0.0, transact(q, price=0.0) with bid/offer data; fixed-income and market-value trees, all security kinds, zero / price-"
+        "proportional commission) followed directly by reads, judged by whole read-outs on twins: every getter of every node read on one deep "
+        "copy equals the same getter read after an explicit update on another. distinct = (tree shape, op, outcome, integer, commission)")
 ASSUMPTIONS = ["freshness is judged only when no update=False run is open (the caller then owes an update)"]
 
 SERIES_STRAT = ["prices", "values", "notional_values", "cash", "fees", "flows", "positions", "outlays"]
@@ -376,9 +379,25 @@ class ReadAllTwin(Observer):
     not consulted: `pending changes` is judged by what the explicit update changes."""
     TRADES = ("transact", "allocate", "rebalance", "close", "adjust", "flatten")
 
-    def __init__(self, ctx, p_other=0.25):
+    def __init__(self, ctx, p_other=0.2):
         self.ctx = ctx
         self.p_other = p_other
+
+    def start(self, bt, spec, root, dates):
+        if spec.get("flavour"):
+            self.ctx.count("zero-cash-histories:" + spec["flavour"] + (":bidoffer-data" if spec.get("bidoffer") else ":no-bidoffer-data"))
+
+    @staticmethod
+    def _zero_cash_trade(step):
+        """a security trade that changed the position and left the parent's cash exactly where it was"""
+        op = step["op"]
+        if op["op"] != "transact" or not op.get("path"):
+            return False
+        a, b = step["pre"]["root"], step["post"]["root"]
+        for k in op["path"][:-1]:
+            a, b = a["kids"][k], b["kids"][k]
+        sa, sb = a["kids"][op["path"][-1]], b["kids"][op["path"][-1]]
+        return sa["t"] == "S" and sa["position"] != sb["position"] and a["capital"] == b["capital"] and a["lastFee"] == b["lastFee"]
 
     def after(self, bt, spec, root, dates, step, i):
         ctx = self.ctx
@@ -411,6 +430,8 @@ class ReadAllTwin(Observer):
             return
         ctx.count("read-all-twins")
         ctx.count("read-all-twins:after-" + kind)
+        if self._zero_cash_trade(step):
+            ctx.count("read-all-twins:right-after-a-trade-with-zero-cash-leg")
         ctx.count("read-all-twins:getters-compared", len(order))
         ctx.count("read-all-twins:tree-was-" + ("flagged-stale" if was_stale else "not-flagged"))
         ctx.count("read-all-twins:first-read:" + ("security" if isinstance(members[first[0]], bt.core.SecurityBase) else "strategy") + "." + first[1])
@@ -474,7 +495,7 @@ def zero_cash_trades(rng, spec):
     to price) and, as a control, a flat fee; securities directly under the root and inside a sub-strategy; mixed with ordinary trades,
     update=False trades closed by an update, closes, redundant updates."""
     from .. import gen_engine as G
-    T = max(spec["T"], 5)
+    T = min(max(spec["T"], 5), 7)
     spec["T"] = T
     flavour = rng.choice(["fi-par", "fi-par", "fi-bespoke", "mv-bespoke", "mv-bespoke", "mv-worthless"])
     fi = flavour.startswith("fi")
@@ -485,9 +506,17 @@ def zero_cash_trades(rng, spec):
         kinds[0] = rng.choice([1, 1, 2])          # at least one instrument whose notional is its position
     leaves = [{"sec": t, "kind": k, "mult": rng.choice([1.0, 1.0, 10.0, 0.5]), "cfi": True} for t, k in zip(names, kinds)]
     kids = list(leaves)
+    anchors = set()
+    if fi:
+        anchors.add(names[0])
     if len(leaves) >= 3 and rng.random() < 0.4:
         n_in = rng.randint(1, 2)
+        if fi:
+            # a fixed-income strategy needs notional to price its p&l: every strategy keeps one long instrument with notional
+            leaves[-n_in]["kind"] = rng.choice([1, 1, 2])
+            anchors.add(leaves[-n_in]["sec"])
         kids = leaves[:-n_in] + [{"name": "s00", "fi": fi, "algos": False, "kids": leaves[-n_in:]}]
+    kinds = [l["kind"] for l in leaves]
     spec["tree"] = {"name": "root", "fi": fi, "algos": False, "kids": kids}
     # quotes: the instruments traded at zero are quoted at exactly 0.0 on about half of the dates (else small, of either sign in a
     # fixed-income tree); the others are ordinary
@@ -530,8 +559,8 @@ def zero_cash_trades(rng, spec):
     ops = [{"op": "adjust", "path": [], "amount": spec["capital"], "update": True, "flow": True}, {"op": "update", "d": 0}]
     for p in subs:
         ops.append({"op": "allocate", "path": p[0], "amount": spec["capital"] / 4, "update": True})
-    for p in secs:
-        if rng.random() < (0.3 if p[2]["sec"] in zero_quoted else 0.8):
+    for p in sorted(secs, key=lambda p: p[2]["sec"] not in anchors):
+        if p[2]["sec"] in anchors or rng.random() < (0.3 if p[2]["sec"] in zero_quoted else 0.8):
             ops.append({"op": "transact", "path": p[0], "q": float(rng.randint(5, 60)), "update": rng.random() < 0.7, "price": None})
     ops.append({"op": "update", "d": 0})
 
@@ -550,7 +579,7 @@ def zero_cash_trades(rng, spec):
         at_zero = [p for p in secs if prices[p[2]["sec"]][d] == 0.0]
         for _ in range(rng.randint(1, 3)):
             p = rng.choice(at_zero) if (at_zero and rng.random() < 0.7) else rng.choice(secs)
-            q = float(rng.choice([-1, 1, 1]) * rng.randint(1, 40)) * (rng.choice([1.0, 100.0]) if fi else 1.0)
+            q = float((1 if p[2]["sec"] in anchors else rng.choice([-1, 1, 1])) * rng.randint(1, 40)) * (rng.choice([1.0, 100.0]) if fi else 1.0)
             px = 0.0 if (bespoke and rng.random() < 0.65) else None
             upd = rng.random() < 0.85
             ops.append({"op": "transact", "path": p[0], "q": q, "update": upd, "price": px})
@@ -558,8 +587,8 @@ def zero_cash_trades(rng, spec):
                 reads_after()
             else:
                 ops.append({"op": "update", "d": d})
-        if rng.random() < 0.25:
-            p = rng.choice(secs)
+        if rng.random() < 0.25 and len(secs) > len(anchors):
+            p = rng.choice([x for x in secs if x[2]["sec"] not in anchors])
             ops.append({"op": "close", "path": p[0][:-1], "child": p[0][-1], "update": True})
             reads_after()
         if rng.random() < 0.5:
@@ -576,7 +605,7 @@ def run(ctx, bt):
     for sp in corpus():
         run_history_observed(bt, copy.deepcopy(sp), ctx.rng, len(sp["ops"]), [Monitor(ctx, 1.0)], ctx)
         ctx.evaluations += 1
-    run_engine_protocol(ctx, bt, ctx.scale(24, 300), [ReadAllTwin(ctx), Monitor(ctx)], None, None,
+    run_engine_protocol(ctx, bt, ctx.scale(12, 300), [ReadAllTwin(ctx)], None, None,
                         spec_mutator=zero_cash_trades, corr_name="step[C08]:zero-cash-trade-then-read")
     run_engine_protocol(ctx, bt, ctx.scale(90, 900), [Monitor(ctx)], None, None, corr_name="step[C08]:whole-snapshot")
 
